@@ -16,11 +16,14 @@ void coap_free_type(coap_memory_tag_t type, void *p) { (void)type; free(p); }
 coap_log_t coap_get_log_level(void) { return (coap_log_t)vin_scalar("log_level"); }
 void coap_log_impl(coap_log_t level, const char *format, ...) { (void)level; (void)format; }
 #else
+#ifndef VH_ALLOC_FAIL_HOOK
+#define VH_ALLOC_FAIL_HOOK() ((void)0)
+#endif
 _Bool nondet_alloc_fail(void);
 void *coap_malloc_type(coap_memory_tag_t type, size_t size) {
   (void)type;
   _Bool alloc_fail = nondet_alloc_fail();
-  if (alloc_fail) return NULL;
+  if (alloc_fail) { VH_ALLOC_FAIL_HOOK(); return NULL; }
   __CPROVER_assume(size <= ALLOC_CAP);
   void *q = malloc(ALLOC_CAP);           /* constant-size object (see DESIGN 2.5): requests are <= ALLOC_CAP */
   __CPROVER_assume(q != NULL);
@@ -29,7 +32,7 @@ void *coap_malloc_type(coap_memory_tag_t type, size_t size) {
 void *coap_realloc_type(coap_memory_tag_t type, void *p, size_t size) {
   (void)type;
   _Bool alloc_fail = nondet_alloc_fail();
-  if (alloc_fail) return NULL;
+  if (alloc_fail) { VH_ALLOC_FAIL_HOOK(); return NULL; }
   __CPROVER_assume(size <= ALLOC_CAP);
   unsigned char *q = malloc(ALLOC_CAP);  /* constant-size object; the old block has ALLOC_CAP bytes too */
   __CPROVER_assume(q != NULL);
